@@ -29,7 +29,7 @@ import (
 func TestC16(t *testing.T) {
 	r := report.Start("C16")
 	defer r.Finish()
-	ng := r.Pick(48, 2400)
+	ng := r.Cases(48, 2400)
 	for g := 0; g < ng; g++ {
 		id := fmt.Sprintf("state/%d", g)
 		if !r.Want(id, g) {
